@@ -9,6 +9,7 @@ import YaegiVerif.Proofs.C02Shift
 import YaegiVerif.Proofs.C02Cmp
 import YaegiVerif.Proofs.C02Entry
 import YaegiVerif.Proofs.C02Aux
+import YaegiVerif.Proofs.C02Str
 /-
   C02 — property theorems: operators and conversions on the integer kinds.
 
@@ -97,6 +98,12 @@ theorem functions_tie : Generated.C02.opFunctions = Expected.C02.opFunctions := 
 
 /-- the extractor understood every construct of op.go / run.go / value.go it walked -/
 theorem nothing_unrecognised : Generated.C02.unrecognised = [] := by decide
+
+/-- the arms of run.go `convert` (no fast path of its own for any pair of kinds) -/
+theorem convert_arms_tie : Generated.C02.convertArms = Expected.C02.convertArms := by decide
+
+/-- run.go `convert` is textually the function that was read -/
+theorem source_tie : Generated.C02.sourceHashes = Expected.C02.sourceHashes := by decide
 
 /-! ## 2. Well-formedness of the regenerated tables -/
 
@@ -309,6 +316,25 @@ theorem dec_correct (s : Bool) (x : BitVec w) (h : w ≤ 64) :
 /-- `T(x)`: sign- or zero-extend according to the SOURCE kind, truncate to the target width -/
 theorem intconv_correct (s : Bool) (x : BitVec w) (w' : Nat) (h : w ≤ 64) (h' : w' ≤ 64) :
     convInt s x w' = convert s x w' := model_conv s x w' h h'
+
+/-! ### conversion of an integer to a string -/
+
+/-- in the REGENERATED arm list of run.go `convert`, the conversion of a (non-nil) value with no hook registered is
+    served by `reflect.Value.Convert` — there is no arm of its own for integer → string (or any other pair) -/
+theorem convert_value_through_reflect : valueConvAct Generated.C02.convertArms = some .reflectConvert := by decide
+
+/-- **`string(x)` for an integer variable x** (every integer kind, every value): the arm the regenerated table
+    selects, reflect.Value.Convert, yields the code point Go specifies — x if it is a valid code point, U+FFFD if it is
+    negative, a surrogate half, above 0x10FFFF, or does not fit an int32 (`string(int64(1<<32 + 'A'))` is "\uFFFD", not "A"). -/
+theorem intstring_correct (s : Bool) {w : Nat} (x : BitVec w) (h : w ≤ 64) :
+    valueConvAct Generated.C02.convertArms = some .reflectConvert ∧ reflectIntString s x = intToString s x :=
+  ⟨convert_value_through_reflect, reflectIntString_correct s x h⟩
+
+example : reflectIntString true (BitVec.ofNat 64 (2 ^ 32 + 65)) = 0xFFFD := by decide
+example : reflectIntString false (BitVec.ofNat 64 (2 ^ 64 - 1)) = 0xFFFD := by decide
+example : reflectIntString true (BitVec.ofInt 8 (-1)) = 0xFFFD := by decide
+example : reflectIntString false (BitVec.ofNat 16 0xD800) = 0xFFFD := by decide
+example : reflectIntString true (65#32) = 65 ∧ reflectIntString false (0x10FFFF#32) = 0x10FFFF := by decide
 
 /-! ### constant operands -/
 
